@@ -90,6 +90,41 @@ def run(tier, v):
                 samples.append({"family": fam, "segments": e["segs"], "acceptable_outputs_per_segment": [s["outs"] for s in e["exp"]]})
         if seen != len(exp):
             raise vlib.ToolError("harness answered %d of %d scenarios (%s)" % (seen, len(exp), fam))
+        if fam in ("freq", "both"):
+            # the same scenarios through the pool an application gets (HuginnNetTcp::with_config + init_pool + worker_pool()): four workers,
+            # room for two endpoints per worker (the connection capacity is per worker), the clock scripted per dispatch call; the
+            # estimates reported are those of the sequential analyzer, judged above
+            seq = {o["id"]: sorted(json.dumps(observed(fr), sort_keys=True) for fr in o["out"] if observed(fr) is not None) for o in vlib.read_ndjson(out)}
+            pick = [i for i in sorted(exp) if seq.get(i)][:: max(1, len([i for i in exp if seq.get(i)]) // (200 if tier == "thorough" else 40))]
+            preq, pout = os.path.join(wd, "pool-%s.req" % fam), os.path.join(wd, "pool-%s.out" % fam)
+            vlib.write_ndjson(preq, [{"id": i, "crate": "tcp_cfg", "workers": 4, "queue": 64, "batch": 1, "timeout_ms": 5, "cap": 2, "matcher": False, "perturb": 0, "gap_us": 4000, "grace_ms": 10,
+                                      "dispatchers": [["".join("%02x" % b for b in fr_) for fr_ in exp[i]["frames"]]], "clock": exp[i]["clock"]} for i in pick])
+            vlib.run_hv_split("pool", preq, pout, parts=8, timeout=1800)
+            pool_line = lambda i, gap: {"id": i, "crate": "tcp_cfg", "workers": 4, "queue": 64, "batch": 1, "timeout_ms": 5, "cap": 2, "matcher": False, "perturb": 0, "gap_us": gap, "grace_ms": 10,
+                                        "dispatchers": [["".join("%02x" % b for b in fr_) for fr_ in exp[i]["frames"]]], "clock": exp[i]["clock"]}
+            est = lambda o: sorted(json.dumps(observed({"r": "ok", "res": r_}), sort_keys=True) for r_ in o.get("results", []) if observed({"r": "ok", "res": r_}) is not None)
+            first = list(vlib.read_ndjson(pout))
+            # a worker that is not scheduled for longer than the gap between two dispatch calls reads a later clock value: scenarios whose
+            # estimates differ are run once more, one at a time, with 40 ms between the calls; only what differs again is reported
+            again = [o["id"] for o in first if not (o.get("skipped") or "panic" in o or o.get("timed_out")) and est(o) != seq[o["id"]]]
+            redo = {}
+            if again:
+                vlib.write_ndjson(preq + ".again", [pool_line(i, 40000) for i in again])
+                vlib.run_hv("pool", preq + ".again", pout + ".again", timeout=1800)
+                redo = {o["id"]: o for o in vlib.read_ndjson(pout + ".again")}
+            for o in first:
+                o = redo.get(o["id"], o)
+                if o.get("skipped"):
+                    continue
+                e = exp[o["id"]]
+                if "panic" in o or o.get("timed_out"):
+                    v.violation({"family": fam, "k": e["k"], "path": "pool built by with_config + init_pool", "observed": o.get("panic", "queued packets were not taken up")})
+                    continue
+                got = est(o)
+                n_steps += len(e["frames"])
+                if got != seq[o["id"]]:
+                    v.violation({"family": fam, "k": e["k"], "segments": e["segs"], "path": "pool built by HuginnNetTcp::with_config(max_connections = 2, workers = 4) + init_pool, packets dispatched one by one",
+                                 "estimates_of_the_sequential_analyzer": [json.loads(x) for x in seq[o["id"]]], "estimates_from_the_pool": [json.loads(x) for x in got]})
     if not samples:
         samples.append({"note": "no sample drawn"})
     return v.finish("model_checking", {
